@@ -19,14 +19,14 @@ division mode. (`eval` is a total Lean function, so "returns a value or an
 error" is its type.) -/
 theorem eval_no_panic (cfg : EvalCfg) (hs : cfg.sets = .loops) (σ : Bindings Val) (e : Expr) :
     (eval cfg σ e).isPanic = false := by
-  sorry
+  exact eval_no_panic' cfg hs σ e
 
 /-- D2, pinned: equality of two sets of byte arrays panics. -/
 theorem pinned_set_equal_panics :
     eval { rx := fun _ _ => none, sets := .pinnedMaps } []
       [.value (.const (.set [.bytes [1]])), .value (.const (.set [.bytes [1]])), .binary .eq]
       = .panic .unhashableSetKey := by
-  sorry
+  decide
 
 /-! ## 2. Arithmetic is exact or an error; never wrapped -/
 
@@ -46,7 +46,9 @@ theorem arith_exact (cfg : EvalCfg) (hd : cfg.div = .exact) (op : BinOp) (hop : 
       if op = .div ∧ b = 0 then .err .divzero
       else if inI64 (exact op a b) then .ok (.atom (.int (exact op a b)))
       else .err .overflow := by
-  sorry
+  cases op <;> simp [isArith] at hop <;>
+    simp [evalBinary, exact, checkedInt_eq, hd]
+  all_goals rfl
 
 /-- "A wrapped value is never produced": whatever an arithmetic operator returns
 as a value is the mathematical result and fits in 64 bits. -/
@@ -54,36 +56,49 @@ theorem arith_never_wraps (cfg : EvalCfg) (hd : cfg.div = .exact) (op : BinOp)
     (hop : isArith op = true) (a b : Int) (v : Val)
     (h : evalBinary cfg op (.atom (.int a)) (.atom (.int b)) = .ok v) :
     v = .atom (.int (exact op a b)) ∧ inI64 (exact op a b) = true := by
-  sorry
+  rw [arith_exact cfg hd op hop a b] at h
+  split at h
+  · cases h
+  · split at h
+    · rename_i hin
+      cases h
+      exact ⟨rfl, hin⟩
+    · cases h
 
 /-- Go's machine division is the mathematical truncated division exactly under
 the guard that the repair adds. -/
 theorem goDiv_exact (a b : BitVec 64) (hb : b ≠ 0#64)
     (h : ¬ (a = BitVec.intMin 64 ∧ b = -1#64)) :
     (a.sdiv b).toInt = Int.tdiv a.toInt b.toInt := by
-  sorry
+  have _ := hb
+  apply BitVec.toInt_sdiv_of_ne_or_ne
+  by_cases ha : a = BitVec.intMin 64
+  · right; intro hb'; exact h ⟨ha, hb'⟩
+  · left; exact ha
 
 /-- …and without the guard it wraps: `MinInt64 / -1 = MinInt64`. -/
 theorem goDiv_wraps : ((BitVec.intMin 64).sdiv (-1#64)).toInt = i64Min := by
-  sorry
+  decide
 
 /-- The pinned model's `wrapI64 (tdiv a b)` is Go's `int64 /` on in-range operands. -/
 theorem pinned_div_is_machine_div (a b : Int) (ha : inI64 a = true) (hb : inI64 b = true)
     (hb0 : b ≠ 0) :
     wrapI64 (Int.tdiv a b) = ((BitVec.ofInt 64 a).sdiv (BitVec.ofInt 64 b)).toInt := by
-  sorry
+  exact wrap_tdiv_eq_sdiv a b ha hb hb0
 
 /-- D1, pinned: the wrapped quotient is returned as a value. -/
 theorem pinned_div_wraps (rx : Regex) :
     evalBinary { rx := rx, div := .pinned } .div (.atom (.int i64Min)) (.atom (.int (-1)))
       = .ok (.atom (.int i64Min)) := by
-  sorry
+  simp only [evalBinary]
+  decide
 
 /-- …whereas the repaired machine reports it. -/
 theorem exact_div_overflow (rx : Regex) :
     evalBinary { rx := rx, div := .exact } .div (.atom (.int i64Min)) (.atom (.int (-1)))
       = .err .overflow := by
-  sorry
+  simp only [evalBinary]
+  decide
 
 /-! ## 3. Typing table -/
 
@@ -110,16 +125,24 @@ def acceptsUnary : UnOp → VType → Bool
 /-- A binary operator reports a type error exactly on operand types outside its table. -/
 theorem typing_table (cfg : EvalCfg) (hs : cfg.sets = .loops) (op : BinOp) (l r : Val) :
     evalBinary cfg op l r = .err .type ↔ accepts op l.type r.type = false := by
-  sorry
+  cases op <;> cases l <;> cases r <;> (try (rename_i a b; cases a <;> (try cases b))) <;>
+    simp [evalBinary, evalCompare, evalEqual, accepts, Val.type, Atom.type, boolV,
+      checkedInt_ne_type, pinnedSetGuard, hs]
+  · split <;> simp
+  · split
+    · simp
+    · split <;> simp [checkedInt_ne_type]
 
 theorem typing_table_unary (op : UnOp) (v : Val) :
     evalUnary op v = .err .type ↔ acceptsUnary op v.type = false := by
-  sorry
+  cases op <;> cases v <;> (try (rename_i a; cases a)) <;>
+    simp [evalUnary, acceptsUnary, Val.type, Atom.type]
 
 /-- Well-typed unary operators always produce a value. -/
 theorem unary_total (op : UnOp) (v : Val) (h : acceptsUnary op v.type = true) :
     ∃ w, evalUnary op v = .ok w := by
-  sorry
+  cases op <;> cases v <;> (try (rename_i a; cases a)) <;>
+    simp [evalUnary, acceptsUnary, Val.type, Atom.type] at h ⊢
 
 /-! ## 4. Stack discipline -/
 
@@ -135,104 +158,167 @@ def depthAfter : List Op → Nat → Option Nat
 leaving exactly one operand. -/
 theorem ok_implies_wellformed (cfg : EvalCfg) (σ : Bindings Val) (e : Expr) (v : Val)
     (h : eval cfg σ e = .ok v) : depthAfter e 0 = some 1 := by
-  sorry
+  have hD : ∀ ops d, depthAfter ops d = depthAfter' ops d := by
+    intro ops
+    induction ops with
+    | nil => intro d; rfl
+    | cons op ops ih =>
+      intro d
+      cases op <;> simp [depthAfter, depthAfter', ih]
+  rw [hD]
+  exact eval_ok_depth cfg σ e v h
 
 /-- Malformed sequences (underflow, leftover operands, depth > 1000) are errors. -/
 theorem malformed_is_error (cfg : EvalCfg) (hs : cfg.sets = .loops) (σ : Bindings Val) (e : Expr)
     (h : depthAfter e 0 ≠ some 1) : ∃ c, eval cfg σ e = .err c := by
-  sorry
+  cases hr : eval cfg σ e with
+  | ok v => exact absurd (ok_implies_wellformed cfg σ e v hr) h
+  | err c => exact ⟨c, rfl⟩
+  | panic s =>
+    have := eval_no_panic cfg hs σ e
+    rw [hr] at this
+    cases this
 
 /-- An unbound variable is an error. -/
 theorem unbound_variable_is_error (cfg : EvalCfg) (σ : Bindings Val) (n : Bytes)
     (h : σ.lookup n = none) (pre post : List Op) (st : List Val)
     (hpre : runOps cfg σ pre [] = .ok st) :
     eval cfg σ (pre ++ .value (.var n) :: post) = .err .unknownVar := by
-  sorry
+  unfold eval
+  rw [runOps_append, hpre]
+  show ((stepOp cfg σ st (.value (.var n))).bind (runOps cfg σ post)).bind _ = _
+  rw [stepOp_unbound cfg σ n h st]
+  rfl
 
 /-! ## 5. Set operations compute the mathematical operations on duplicate-free lists -/
 
 theorem setUnion_spec (s t : List Atom) (x : Atom) : x ∈ setUnion s t ↔ x ∈ s ∨ x ∈ t := by
-  sorry
+  simp only [setUnion, List.mem_append, List.mem_filter, Bool.not_eq_true', List.contains_eq_mem,
+    decide_eq_false_iff_not]
+  by_cases hx : x ∈ s <;> simp [hx]
 
 theorem setUnion_nodup (s t : List Atom) (hs : s.Nodup) (ht : t.Nodup) : (setUnion s t).Nodup := by
-  sorry
+  unfold setUnion
+  rw [List.nodup_append]
+  refine ⟨hs, ht.sublist List.filter_sublist, ?_⟩
+  intro a ha b hb hab
+  subst hab
+  simp [List.mem_filter] at hb
+  exact hb.2 ha
 
 theorem setIntersect_spec (s t : List Atom) (x : Atom) : x ∈ setIntersect s t ↔ x ∈ s ∧ x ∈ t := by
-  sorry
+  simp [setIntersect, List.mem_filter]
 
 theorem setIntersect_nodup (s t : List Atom) (hs : s.Nodup) : (setIntersect s t).Nodup := by
-  sorry
+  exact hs.sublist List.filter_sublist
 
 theorem setIncludes_spec (s sub : List Atom) : setIncludes s sub = true ↔ ∀ x ∈ sub, x ∈ s := by
-  sorry
+  simp [setIncludes]
 
 /-- On duplicate-free lists `Set.Equal` is extensional set equality. -/
 theorem setEqual_spec (s t : List Atom) (hs : s.Nodup) (ht : t.Nodup) :
     setEqual s t = true ↔ ∀ x, x ∈ s ↔ x ∈ t := by
-  sorry
+  rw [setEqual_iff]
+  constructor
+  · rintro ⟨_, h1, h2⟩ x
+    exact ⟨h1 x, h2 x⟩
+  · intro h
+    refine ⟨?_, fun x => (h x).1, fun x => (h x).2⟩
+    exact Nat.le_antisymm (length_le_of_nodup_subset hs fun x => (h x).1)
+      (length_le_of_nodup_subset ht fun x => (h x).2)
 
 /-- The repaired `Set.Equal` is symmetric on all lists. -/
 theorem setEqual_symm (s t : List Atom) : setEqual s t = setEqual t s := by
-  sorry
+  simp only [setEqual]
+  rw [Bool.and_assoc, Bool.and_assoc, Bool.and_comm (s.all _), show (s.length == t.length) = (t.length == s.length) from Bool.beq_comm]
 
 /-- The pinned algorithm (one-directional containment) coincides with the repaired
 one on duplicate-free, bytes-free lists… -/
 theorem setEqualPinned_eq_on_nodup (s t : List Atom) (hs : s.Nodup) (ht : t.Nodup)
     (hbs : ∀ x ∈ s, x.type ≠ .bytes) (hbt : ∀ x ∈ t, x.type ≠ .bytes) :
     setEqualPinned s t = .ok (setEqual s t) := by
-  sorry
+  have _ := ht
+  have hnt : (t.any fun x => x.type == .bytes) = false := by
+    simpa using hbt
+  have hns : (s.any fun x => x.type == .bytes) = false := by
+    simpa using hbs
+  unfold setEqualPinned
+  by_cases hl : s.length = t.length
+  · have hne : (s.length != t.length) = false := by simp [hl]
+    simp only [hne, hnt, hns, Bool.false_eq_true, if_false]
+    congr 1
+    cases hall : s.all (fun x => t.contains x) with
+    | false =>
+      symm
+      simp only [setEqual, hall, Bool.and_false, Bool.false_and]
+    | true =>
+      symm
+      rw [setEqual_iff]
+      have h1 : ∀ x ∈ s, x ∈ t := by simpa using hall
+      exact ⟨hl, h1, subset_of_nodup_of_length_le hs h1 (by omega)⟩
+  · have hne : (s.length != t.length) = true := by simp [hl]
+    have : setEqual s t = false := by simp [setEqual, hl]
+    simp [hne, this]
 
 /-- …and not otherwise (D3): with a repeated element it is asymmetric. -/
 theorem setEqualPinned_asymmetric :
     setEqualPinned [.int 1, .int 1] [.int 1, .int 2] = .ok true ∧
     setEqualPinned [.int 1, .int 2] [.int 1, .int 1] = .ok false := by
-  sorry
+  decide
 
 /-! ## 6. String operations are the byte-string operations -/
 
 theorem bytesContains_spec (a b : Bytes) : bytesContains a b = true ↔ ∃ p q, a = p ++ b ++ q := by
-  sorry
+  exact bytesContains_iff a b
 
 theorem prefix_spec (cfg : EvalCfg) (a b : Bytes) :
     ∃ r, evalBinary cfg .pfx (.atom (.str a)) (.atom (.str b)) = .ok (.atom (.bool r)) ∧
       (r = true ↔ ∃ q, a = b ++ q) := by
-  sorry
+  refine ⟨b.isPrefixOf a, rfl, ?_⟩
+  rw [List.isPrefixOf_iff_prefix]
+  constructor
+  · rintro ⟨q, hq⟩; exact ⟨q, hq.symm⟩
+  · rintro ⟨q, hq⟩; exact ⟨q, hq.symm⟩
 
 theorem suffix_spec (cfg : EvalCfg) (a b : Bytes) :
     ∃ r, evalBinary cfg .sfx (.atom (.str a)) (.atom (.str b)) = .ok (.atom (.bool r)) ∧
       (r = true ↔ ∃ p, a = p ++ b) := by
-  sorry
+  refine ⟨b.isSuffixOf a, rfl, ?_⟩
+  rw [List.isSuffixOf_iff_suffix]
+  constructor
+  · rintro ⟨q, hq⟩; exact ⟨q, hq.symm⟩
+  · rintro ⟨q, hq⟩; exact ⟨q, hq.symm⟩
 
 theorem concat_spec (cfg : EvalCfg) (a b : Bytes) :
     evalBinary cfg .add (.atom (.str a)) (.atom (.str b)) = .ok (.atom (.str (a ++ b))) := by
-  sorry
+  rfl
 
 /-- `length` of a string is its length in bytes ("é" has length 2). -/
 theorem length_bytes : evalUnary .length (.atom (.str [0xc3, 0xa9])) = .ok (.atom (.int 2)) := by
-  sorry
+  rfl
 
 /-! ## 7. Booleans are strict; comparisons are the orders on ℤ and ℕ -/
 
 theorem and_spec (cfg : EvalCfg) (a b : Bool) :
     evalBinary cfg .and (.atom (.bool a)) (.atom (.bool b)) = .ok (.atom (.bool (a && b))) := by
-  sorry
+  rfl
 
 theorem or_spec (cfg : EvalCfg) (a b : Bool) :
     evalBinary cfg .or (.atom (.bool a)) (.atom (.bool b)) = .ok (.atom (.bool (a || b))) := by
-  sorry
+  rfl
 
 /-- Strictness: an ill-typed right operand of `||` is an error even when the left is `true`. -/
 theorem or_strict (cfg : EvalCfg) (i : Int) :
     evalBinary cfg .or (.atom (.bool true)) (.atom (.int i)) = .err .type := by
-  sorry
+  rfl
 
 theorem lt_int_spec (cfg : EvalCfg) (a b : Int) :
     evalBinary cfg .lt (.atom (.int a)) (.atom (.int b)) = .ok (.atom (.bool (decide (a < b)))) := by
-  sorry
+  rfl
 
 theorem le_date_spec (cfg : EvalCfg) (a b : Nat) :
     evalBinary cfg .le (.atom (.date a)) (.atom (.date b)) = .ok (.atom (.bool (decide (a ≤ b)))) := by
-  sorry
+  rfl
 
 /-! ## 8. Non-vacuity: a concrete well-formed expression with every shape of step -/
 
